@@ -110,6 +110,15 @@ func (w *World) do(st Step) bool {
 	case "raw":
 		return w.sendFrame(st.C, []byte(st.Raw))
 	case "close":
+		if st.C == "@req" {
+			// the connection on whose behalf the oldest outstanding request was made
+			for _, r := range w.mq.pendingReqs() {
+				if r.csym != "" {
+					return w.closeClient(r.csym)
+				}
+			}
+			return false
+		}
 		return w.closeClient(st.C)
 	case "stall":
 		return w.stall(st.C)
